@@ -205,6 +205,11 @@ def run(rep, tier, seed, keep=False):
                 for dflt in (g.c(9), g.c(None), g.lst()):
                     add(g.idx2(X, g.c(key), dflt), d)
         for s in SETS + [{1, 2, 3, 4, 5, 6}]:
+            # inclusion order between sets (comparable and incomparable pairs)
+            for other in ((), (1,), (2,), (1, 2), (1, 3), (0, 1, 2), (0, 1, 2, 3)):
+                for op in ('<', '<=', '>', '>=', '=', '!='):
+                    add(g.bn(op, X, g.call('set', *[g.c(v) for v in other])), s)
+                    add(g.bn(op, g.call('set', *[g.c(v) for v in other]), X), s)
             for (f, args) in set_ops():
                 add(g.mcall(X, f, *args), s)
             # a key selector decides what is distinct, on sets as on lists (the count does not depend on the set's order)
@@ -260,6 +265,9 @@ def run(rep, tier, seed, keep=False):
         # and keeps it as the accumulator, so later steps see it exhausted
         add(g.mcall(X, 'accumulate', BINS[0]), [[0, 1], [1, 2], [2, 3]], None, 'iterator-valued-accumulator')
         add(g.mcall(X, 'accumulate', BINS[0], g.lst()), [[0, 1], [1, 2], [2, 3]], None, 'iterator-valued-accumulator')
+        # (the elements have to be lazily produced sequences - or raw host lists - for `+` to take its chaining overload)
+        add(g.mcall(g.mcall(X, 'select', g.mcall(X, 'select', X)), 'accumulate', BINS[0]), [[0, 1], [1, 2], [2, 3]], None, 'iterator-valued-accumulator')
+        add(g.mcall(g.mcall(X, 'select', g.mcall(X, 'where', g.c(True))), 'accumulate', BINS[0], g.lst()), [[0, 1], [1, 2], [2, 3]], None, 'iterator-valued-accumulator')
         n1 = len(events)
         # pipelines of up to 4 operators, every lazy intermediate consumed once
         stage = [lambda: ('select', (rng.choice(SELS[:5]),)), lambda: ('where', (rng.choice(PREDS),)), lambda: ('skip', (g.c(rng.randint(0, 3)),)),
